@@ -318,7 +318,7 @@ CONTENT_DIR = {"name": "content", "type": "dir", "mode": 0o755}
 
 def scenario(r, jail):
     """templates that reach the interesting dispatch paths often"""
-    k = r.randrange(12)
+    k = r.randrange(14)
     J = jail
     up = "/".join([".."] * r.randrange(1, 4))
     victim = r.choice(["victim", "out/victim2"])
@@ -364,6 +364,16 @@ def scenario(r, jail):
         ms = [{"name": "content/f", "type": "reg", "data": "orig", "mode": 0o600},
               {"name": "content/g", "type": "lnk", "link": r.choice(["content/f", "content/./f", "content/x/../f", "content/f/"]), "mode": 0o644},
               {"name": "content/" + r.choice(["g", "f"]), "type": "reg", "data": "new", "mode": 0o644}]
+    elif k == 12:   # hard link onto an existing name (tarfile would fall back to re-extracting another member)
+        ms = [{"name": "content/f", "type": "reg", "data": "F", "mode": 0o644}, {"name": "content/g", "type": r.choice(["reg", "sym", "dir"]), "data": "G", "link": "f", "mode": 0o644},
+              {"name": "content/g", "type": "lnk", "link": "content/f", "mode": r.choice(MODES_F)}]
+    elif k == 13:   # the re-extraction fallback of tarfile.makelink: an earlier symlink member of the same (normalised) name as the link
+        #             source is re-created at the hard link's place and the attributes are applied through it
+        ms = [{"name": "content/e", "type": "dir", "mode": 0o755}, {"name": "content/e2", "type": "dir", "mode": 0o755},
+              {"name": "content/d", "type": "sym", "link": "e"}, {"name": "content/d/s", "type": "sym", "link": "../../" + victim},
+              {"name": "content/d", "type": "sym", "link": "e2"}, {"name": "content/e2/s", "type": "reg", "data": "S", "mode": 0o644},
+              {"name": "content/h", "type": "reg", "data": "H", "mode": 0o644},
+              {"name": "content/h", "type": "lnk", "link": "content/d/s", "mode": r.choice([0o777, 0o640])}]
     else:           # replace an outside symlink that points into the workspace
         ms = [{"name": "content/s", "type": "sym", "link": r.choice(["../../out", J + "/out"])},
               {"name": "content/s/back", "type": r.choice(["sym", "sym", "dir", "reg", "lnk", "fifo"]), "link": r.choice(["/nonexistent-c08/x", "content/x"]),
@@ -578,6 +588,15 @@ def check_confined(ctx, base, members, vsn, var, record=True):
     out, before, after, ws_rel, audit_rel, jail = res
     al = allowed_rel(var, ws_rel, audit_rel)
     changed = diff_snap(outside_part(before, al), outside_part(after, al))
+    if record and out == "ok":
+        # the documented format: pax version 1; only content/..., meta/audit.json.gz, content, meta.  (Only the first member is
+        # judged: tarfile's link fallback may silently drop the rest of a stream, which the builder's hash check catches later.)
+        case = {"kind": "hostile", "members": members, "vsn": vsn, "jail": var}
+        first = members[0]["name"] if members else "content"
+        if vsn != "1":
+            ctx.violation("an artifact with pax header bob-archive-vsn=%r was extracted" % (vsn,), case, "unsupported-version-accepted")
+        elif not (first.startswith("content/") or first.rstrip("/") in ("content", "meta") or first == "meta/audit.json.gz"):
+            ctx.violation("an artifact whose first member is the unknown entry %r was extracted" % first, case, "unknown-member-accepted")
     if changed and record:
         sig = classify_violation(base, members, vsn, var, changed)
         seen = ctx.__dict__.setdefault("_c08_sigs", {})
@@ -708,7 +727,16 @@ def check_fidelity(ctx, work, seed):
     buf = io.BytesIO()
     old = os.umask(UMASK)
     try:
-        TarHelper()._pack(None, buf, audit_src, src)
+        try:
+            with time_limit(30):
+                TarHelper()._pack(None, buf, audit_src, src)
+        except _Timeout:
+            ctx.skip("a pack/extract round trip hit the 30 s limit (machine load)")
+            return
+        except Exception as e:  # noqa
+            ctx.violation("_pack failed on a generated tree: %s: %s" % (type(e).__name__, str(e)[:200]), {"kind": "fidelity", "tree_seed": seed},
+                          "fidelity-pack-error")
+            return
         dst = os.path.join(work, "dst", "workspace")
         audit_dst = os.path.join(work, "dst", "audit.json.gz")
         os.makedirs(os.path.dirname(dst))
